@@ -27,6 +27,7 @@ class Index:
         self.defn = {}         # canonical id -> node with body
         self.globals = {}      # var id -> node (namespace / static member variables)
         self.static_canon = set()
+        self.tpl_by_canon = {}
         self.lambdas = {}
         for o in objs: self.walk(o, None, False)
         self.consts = {}
@@ -72,7 +73,9 @@ class Index:
                     self.add_func(c, rec)
                     targs = [x for x in c.get('inner', []) if x.get('kind') == 'TemplateArgument']
                     if first and not targs: self.is_pattern.add(c['id'])
-                    else: self.tpl_args[c['id']] = [self.targ(x) for x in targs]
+                    else:
+                        self.tpl_args[c['id']] = [self.targ(x) for x in targs]
+                        if targs: self.tpl_by_canon[self.canon.get(c['id'], c['id'])] = self.tpl_args[c['id']]
                     first = False
         elif k in FUNC_KINDS:
             # out-of-line member definitions carry parentDeclContextId
@@ -160,7 +163,7 @@ class Emitter:
         if n['kind'] == 'CXXConstructorDecl': nm = 'ctor'
         if n['kind'] == 'CXXDestructorDecl': nm = 'dtor'
         pre = (rec['name'] + '_') if rec is not None and rec.get('name') else ''
-        ta = self.ix.tpl_args.get(n['id'])
+        ta = self.ix.tpl_args.get(n['id']) or self.ix.tpl_by_canon.get(self.ix.canon.get(n['id'], n['id']))
         if ta: nm += '_' + '_'.join(san(a.replace(' *', 'p').replace('*', 'p')) for a in ta)
         return pre + san(nm)
 
@@ -177,13 +180,22 @@ class Emitter:
                 np_ = len([p for p in n.get('inner', []) if p.get('kind') == 'ParmVarDecl'])
                 seen.setdefault(np_, []).append(cid)
             for np_, ids in seen.items():
+                pfx = b if len(seen) == 1 else f"{b}_p{np_}"
                 if len(ids) == 1: self.names[ids[0]] = f"{b}_p{np_}"
                 else:
-                    for cid in ids:   # disambiguate by the parameter type spelling (stable under edits elsewhere)
+                    # overloads with the same arity: the tree_instance* form keeps the plain name, the by-name wrapper gets
+                    # `_by_name`, the legacy node_version64** out-parameter `_legacy`; anything else falls back to the types
+                    used = {}
+                    for cid in ids:
                         n = self.ix.defn[cid]
                         ps = [p['type']['qualType'] for p in n.get('inner', []) if p.get('kind') == 'ParmVarDecl']
-                        key = san('_'.join(strip_cv(x).split('::')[-1].replace(' *', 'p').replace(' &', 'r') for x in ps))[:60]
-                        self.names[cid] = f"{b}_p{np_}_{key}"
+                        suffix = '' if any('tree_instance *' in x and 'pair<' not in x for x in ps) else '_by_name'
+                        if ps and 'node_version64 **' in ps[-1]: suffix += '_legacy'
+                        nm = pfx + suffix
+                        if nm in used:
+                            key = san('_'.join(strip_cv(x).split('::')[-1].replace(' *', 'p').replace(' &', 'r') for x in ps))[-40:]
+                            nm = f"{pfx}_{key}"
+                        used[nm] = cid; self.names[cid] = nm
 
     def fname(self, fid):
         cid = self.ix.canon.get(fid, fid)
